@@ -8,15 +8,22 @@ import FluteModel.Lemmas.DrainObj
 namespace Flute.ObjRecv
 open Flute Flute.FecDec Flute.Lemmas.DrainObj
 
-/-- the decompressor contract plus adequacy of the model's inner fuel constant -/
+/-- the decompressor contract plus adequacy of the model's inner fuel FUNCTION: at every call of `decoder_read` the fuel the model
+    passes exceeds the measure of the BlockWriter at that call.  (A constant fuel cannot work: the measure of an inflater grows with
+    the bytes waiting in the ring - reviewer batch 3, `dzok_unsat`.)  Satisfiable for every contract: `DzOK.ofContract`. -/
 structure DzOK (P : Params) where
   C : DzContract P
-  fuel : ∀ c hist avail, C.mu c hist avail < P.dzFuel
+  fuel : ∀ w : BW, bwMu C w < P.dzFuel w
+
+/-- every contract is met by SOME fuel function (the measure + 1): the fuel is a modelling device, the content is the contract -/
+def DzOK.ofContract (P : Params) (C : DzContract P) (h : ∀ w, P.dzFuel w = bwMu C w + 1) : DzOK P :=
+  ⟨C, fun w => by rw [h w]; exact Nat.lt_succ_self _⟩
 
 /-- a decompressor that never hands out data (always `Err` / `WouldBlock` / ...) meets the contract with measure 0 and any
     positive fuel -/
-def DzOK.ofNoData (P : Params) (h : ∀ c hist call out, (P.dzRead c hist call).res ≠ .data out) (hf : 0 < P.dzFuel) : DzOK P :=
-  ⟨⟨fun _ _ _ => 0, fun c hist call out hres => absurd hres (h c hist call out)⟩, fun _ _ _ => hf⟩
+def DzOK.ofNoData (P : Params) (h : ∀ c hist call out, (P.dzRead c hist call).res ≠ .data out) (hf : ∀ w, 0 < P.dzFuel w) : DzOK P :=
+  ⟨⟨fun _ _ _ => 0, fun c hist call out hres => absurd hres (h c hist call out)⟩,
+   fun w => by unfold bwMu; cases w.dz <;> exact hf w⟩
 
 /-- `decoder_read` on a BlockWriter that has a decoder: returns, and the decoder is still there -/
 theorem decoderRead_ok (P : Params) (fuel : Nat) (st : St) (w : BW) (hdz : w.dz.isSome = true) :
@@ -42,16 +49,10 @@ theorem decoderRead_ok (P : Params) (fuel : Nat) (st : St) (w : BW) (hdz : w.dz.
             · exact ih _ _ rfl
 
 theorem decoderRead_total (P : Params) (D : DzOK P) (st : St) (w : BW) (hdz : w.dz.isSome = true) :
-    ∃ st' w' b, decoderRead P P.dzFuel st w = .ok (st', w', b) ∧ w'.dz.isSome = true := by
-  cases decoderRead_ok P P.dzFuel st w hdz with
+    ∃ st' w' b, decoderRead P (P.dzFuel w) st w = .ok (st', w', b) ∧ w'.dz.isSome = true := by
+  cases decoderRead_ok P (P.dzFuel w) st w hdz with
   | inr h => exact h
-  | inl h =>
-    exfalso
-    apply decoderRead_no_hang P D.C P.dzFuel st w _ h
-    unfold bwMu
-    cases w.dz with
-    | none => have := D.fuel .null [] []; simp only []; omega
-    | some dz => exact D.fuel _ _ _
+  | inl h => exact absurd h (decoderRead_no_hang P D.C (P.dzFuel w) st w (D.fuel w))
 
 /-- the `loop` of `decode_write_pkt` -/
 theorem dwLoop_total (P : Params) (D : DzOK P) (pkt : Bytes) :
